@@ -174,6 +174,8 @@ struct Ctx {
     any_deact: bool,
     dup_listener: bool,
     scm_used: bool,
+    /// worker started with max_connections = 1
+    small: bool,
     shared_backend_addr: bool,
     multi_l4: bool,
     equals_used: bool,
@@ -214,6 +216,7 @@ impl Ctx {
             any_deact: false,
             dup_listener: false,
             scm_used: false,
+            small,
             shared_backend_addr: false,
             multi_l4: false,
             equals_used: false,
@@ -840,6 +843,12 @@ fn check_view_and_behaviour(ctx: &mut Ctx, keys_seen: &BTreeSet<(u64, u64)>) {
     if ctx.scm_used {
         // listeners handed back over the SCM socket stay open in flight: connect probes say nothing
         ctx.tags.push("behaviour-skipped:scm".into());
+        return;
+    }
+    if ctx.small {
+        // max_connections = 1: a probe connection that sozu has not yet reaped keeps the next one
+        // waiting at the accept gate; the capacity cases are about response accounting and view only
+        ctx.tags.push("behaviour-skipped:max-connections-1".into());
         return;
     }
     // ---- listening behaviour
@@ -1759,7 +1768,10 @@ impl Area for WorkerArea {
             // listener capacity: with max_connections = 1 the tenth listener is refused ("session list is full"),
             // a deactivated listener frees a slot
             v(&["new w small", "addl h 0 1", "addl h 1 1", "addl h 2 1", "addl h 3 1", "addl t 0 1", "addl t 1 1", "addl t 2 1", "addl t 3 1",
-                "addl u 0 1", "addl u 1 1", "addl s 0 1", "act t 3", "deact t 3", "addl u 1 1", "addl u 2 1"]),
+                "addl u 0 1", "addl u 1 1", "addl s 0 1", "addl h 4 1", "addl t 4 1", "act t 3", "deact t 3", "addl u 1 1", "addl u 2 1"]),
+            // the slab token freed by a Deactivate goes to the next listener: the same proxy refuses it
+            // (ListenerAlreadyPresent), for TCP and UDP as for HTTP(S)
+            v(&["new w", "addl t 0 1", "act t 0", "deact t 0", "addl t 1 1", "addl u 0 1", "act u 0", "deact u 0", "addl u 1 1", "plain Status 1"]),
             // ReturnListenSockets hands back every active listener of the four proxies; they can be activated again
             v(&["new w", "addl h 0 1", "act h 0", "addl s 1 1", "act s 1", "addl t 2 1", "act t 2", "addl u 3 1", "act u 3", "addl t 0 1",
                 "plain ReturnListenSockets 1", "deact h 0", "act h 0", "act t 2", "plain ReturnListenSockets 1", "plain Status 1"]),
